@@ -385,6 +385,59 @@ def u9(rep):
     rep.floor("step stamps written by the binder, the symbol table and the constructors", n, 6)
 
 
+def u10(rep):
+    """scoUndoState says `the previous step was rejected: take it back`.  scobindRestore reads it twice at the start of the next
+    step -- to tell scobindRestoreIdInfo to drop the rejected step's identifier records, and to decide whether to call
+    scobindUndo, which rolls the symbol table back *and clears the flag*.  The order matters: a read of the flag after the call
+    that clears it always sees `false`, so the records of what the rejected form declared stay (and point at freed table
+    entries): a correct definition of the same name then draws `Redefine? (y/n)`, which eats the following forms as its answer.
+    In scobind.c no read of scoUndoState is reachable from a call of a function that clears it without a new assignment in
+    between."""
+    f = common.extract("scobind.c", all_trees=True, all_cfg=True)
+    flag = "scoUndoState"
+    clearers = set()
+    for name, fn in f.funcs.items():
+        if "body" in fn:
+            ws = [x for x in walk(fn["body"]) if x["k"] == "BinaryOperator" and x["op"] == "=" and (strip(x["c"][0]) or {}).get("n") == flag]
+            if ws and all(const_value(x["c"][1]) == 0 for x in ws):
+                clearers.add(name)
+    if not clearers:
+        raise AnalysisBroken("scobind.c: no function clears scoUndoState any more")
+    n = 0
+    for name, fn in sorted(f.funcs.items()):
+        if "body" not in fn or not fn.get("cfg") or name in clearers:
+            continue
+        cs = [c for c in calls(fn["body"]) if c.get("callee") in clearers]
+        if not cs:
+            continue
+        cfg = common.CFG(fn)
+        lhs = set()
+        for x in walk(fn["body"]):
+            if x["k"] == "BinaryOperator" and x["op"] == "=":
+                l = strip(x["c"][0])
+                if l is not None:
+                    lhs.add(l.get("id"))
+        reads = lambda e: e["k"] == "DeclRefExpr" and e["n"] == flag and e.get("id") not in lhs
+        sets = lambda e: e["k"] == "BinaryOperator" and e["op"] == "=" and (strip(e["c"][0]) or {}).get("n") == flag
+        for c in cs:
+            ev = cfg.events(lambda e: e.get("id") == c["id"])
+            if not ev:
+                continue
+            b, i, _ = ev[0]
+            n += 1
+            p = cfg.path_avoiding(b, reads, sets, src_idx=i)
+            key = "flag-read-before-it-is-cleared:%s" % name
+            if p is None:
+                rep.ok("U10", key + "@%d" % c["l"])
+            else:
+                rep.violation("U10", key, "scobind.c:%d (%s)" % (c["l"], name),
+                              "%s is called before a later read of %s in %s; the call clears the flag, so that read always sees "
+                              "`not rejected`: the identifier records of the rejected step are kept (pointing at table entries "
+                              "the roll-back has freed), and a correct re-declaration of the same name is taken for a "
+                              "redefinition" % (c.get("callee"), flag, name), detail={"cfg_path": p[:10]})
+    rep.floor("calls of the functions that clear scoUndoState", n, 1)
+
+
 def u7(rep, f):
     """typeInferTForms() skips a symbol-table level whose `isChecked` flag is set.  The file level stays open for the whole
     interactive session, so the flag must be false again whenever a step's type inference starts -- including the step after a
@@ -666,6 +719,7 @@ def run(tier, only=None):
     u7(rep, f)
     u8(rep)
     u9(rep)
+    u10(rep)
     rep.analysed_count("functions", 3)
     rep.assumptions.append("the CFG search is path-insensitive except for the fintMode == FINT_LOOP assumption in U1")
     return rep
